@@ -58,12 +58,13 @@ class Frame:
 
 
 class LoopSpec:
-    def __init__(self, invariant=(), decreases=None, types=None, index=None, modifies=()):
+    def __init__(self, invariant=(), decreases=None, types=None, index=None, modifies=(), ghost=None):
         self.invariant = list(invariant)
         self.decreases = decreases
         self.types = types or {}
         self.index = index
         self.modifies = list(modifies)
+        self.ghost = ghost or {}      # ghost variables (name -> sort) created at the loop and updated by ghost hooks
 
 
 def loop_nodes(func_node):
@@ -126,6 +127,7 @@ class Interp:
         self.depth = 0
         self.gcache = {}
         self.noforking = 0
+        self.pure_strict = 0
         self.current_contract = None
         self.callstack = []
 
@@ -357,7 +359,30 @@ class Interp:
         m = getattr(self, 'st_' + type(st).__name__, None)
         if m is None:
             raise Unsupported(f'statement {type(st).__name__} at line {st.lineno}')
-        return m(st, fr)
+        r = m(st, fr)
+        hooks = self.env.ghost_hooks.get(fr.func.ident) if fr.func is not None else None
+        if hooks and isinstance(st, (ast.Expr, ast.Assign, ast.AugAssign)):
+            seg = self.env.stmt_text(fr.func, st)
+            for key, src in hooks.items():
+                if key in seg:
+                    self.run_ghost(src, fr)
+        return r
+
+    def run_ghost(self, src, fr):
+        """ghost statements (assignments to ghost variables only) executed in the function's frame"""
+        tree = self.env.parse_cache.get(('ghost', src))
+        if tree is None:
+            tree = ast.parse(src.strip()).body
+            self.env.parse_cache[('ghost', src)] = tree
+        gfr = self.spec_frame(fr)
+        for st in tree:
+            if not (isinstance(st, ast.Assign) and len(st.targets) == 1 and isinstance(st.targets[0], ast.Name)):
+                raise Unsupported('ghost code must be assignments to ghost variables')
+            name = st.targets[0].id
+            if name not in fr.locals or name in [a.arg for a in fr.func.node.args.args]:
+                if name not in getattr(fr, 'ghost_names', ()):
+                    raise Unsupported(f'ghost assignment to non-ghost variable {name}')
+            fr.locals[name] = self.eval(st.value, gfr)
 
     def st_Expr(self, st, fr):
         if isinstance(st.value, ast.Constant):
@@ -609,12 +634,17 @@ class Interp:
                 fr.locals[idx_name] = counter[1].lo
             else:
                 fr.locals[idx_name] = 0
+        if spec.ghost:
+            fr.ghost_names = set(getattr(fr, 'ghost_names', ())) | set(spec.ghost)
+            for gname, gsort in spec.ghost.items():
+                if gname not in fr.locals:
+                    fr.locals[gname] = lib.make_symbolic(self, gsort, gname)
         # 1. invariant on entry
         for k, clause in enumerate(spec.invariant):
             g = self.formula_src(clause, fr)
             self.p.oblige(f'{tag}/inv-init#{k}', 'inv-init', st.lineno, g, note=clause, func=fn)
         # 2. havoc
-        targets = assigned_names(st.body) + list(spec.modifies)
+        targets = assigned_names(st.body) + list(spec.modifies) + [g for g in spec.ghost]
         if kind == 'for':
             for t in assigned_names([ast.Assign(targets=[st.target], value=ast.Constant(0), lineno=0)]):
                 if t not in targets:
@@ -867,7 +897,10 @@ class Interp:
 
     def ex_BoolOp(self, node, fr):
         if self.noforking:
-            ts = [self.as_bool_term(self.eval(v, fr)) for v in node.values]
+            vals = [self.eval(v, fr) for v in node.values]
+            if self.pure_strict and not all(isinstance(v, bool) or (isinstance(v, Sym) and v.kind == BOOL) for v in vals):
+                raise Unsupported('fork inside a pure call: and/or over non-boolean values')
+            ts = [self.as_bool_term(v) for v in vals]
             return Sym(BOOL, z3.And(*ts) if isinstance(node.op, ast.And) else z3.Or(*ts))
         # python value semantics: `a and b` is a if a is falsy else b
         v = None
@@ -1104,6 +1137,27 @@ class Interp:
         self.bind_params(fi.node.args, args, kwargs, fr, Frame(None, fi.module, {}, cls=defcls, parent=closure))
         if _is_generator(fi.node):
             raise Unsupported(f'generator function {fi.qualname}')
+        if not self.noforking and _simple_pure(fi.node):
+            # straight-line boolean/arithmetic helper: evaluate without forking (one merged term) when possible
+            saved = (len(self.p.pc), self.p.idx, len(self.p.taken))
+            fr2 = Frame(fi, fi.module, dict(fr.locals), cls=defcls, parent=closure)
+            self.noforking += 1
+            self.pure_strict += 1
+            self.depth += 1
+            self.callstack.append(fi.ident)
+            try:
+                self.exec_block(fi.node.body, fr2)
+                return None
+            except ReturnSig as r:
+                return r.value
+            except Unsupported as e:
+                if 'fork inside' not in str(e):
+                    raise
+            finally:
+                self.noforking -= 1
+                self.pure_strict -= 1
+                self.depth -= 1
+                self.callstack.pop()
         self.depth += 1
         self.callstack.append(fi.ident)
         try:
@@ -1201,6 +1255,14 @@ class Interp:
             return w
         if isinstance(o, Unknown):
             return self.unknown(f'{o.reason}.{name}')
+        if isinstance(o, lib.RecView):
+            cls = o.owner.cls
+            if cls is not None:
+                if isinstance(cls, str):
+                    cls = self.repo.find(cls)
+                g = self.repo.find_method(cls, name, kinds=('getters',))
+                if g is not None:
+                    return self.call_func(FuncVal(g, o, g.cls), [], {})
         return lib.get_attribute(self, o, name)
 
     def class_attr(self, cls, name):
@@ -1289,6 +1351,36 @@ class _ClassLocals:
 
     def get(self, name, default=None):
         return self[name] if name in self else default
+
+
+_SIMPLE_CACHE = {}
+
+
+def _simple_pure(fnode):
+    """straight-line function: assignments of expressions and a final return (no loops, ifs, try, calls that store)"""
+    k = id(fnode)
+    if k in _SIMPLE_CACHE:
+        return _SIMPLE_CACHE[k]
+    ok = True
+    body = fnode.body
+    for st in body:
+        if isinstance(st, ast.Expr) and isinstance(st.value, ast.Constant):
+            continue
+        if isinstance(st, ast.Return):
+            continue
+        if isinstance(st, ast.Assign) and all(isinstance(t, ast.Name) for t in st.targets):
+            continue
+        ok = False
+        break
+    if ok and not any(isinstance(st, ast.Return) for st in body):
+        ok = False
+    if ok:
+        for n in ast.walk(fnode):
+            if isinstance(n, (ast.Lambda, ast.ListComp, ast.GeneratorExp, ast.DictComp, ast.SetComp, ast.NamedExpr, ast.JoinedStr)):
+                ok = False
+                break
+    _SIMPLE_CACHE[k] = ok
+    return ok
 
 
 def _is_generator(fnode):
